@@ -78,6 +78,7 @@ class LSym:
         self.allow_symbolic_branch = None  # callback(fn, cond) -> bool or None
         self.trace = None
         self.heap = []
+        self.fake_bases = {}
         self.panic_edges_closed = 0   # branches into panic blocks decided infeasible by interval arithmetic alone
         self.events = []          # ('branch', fn, cond) / ('addr', ...) records for relational checks
         self.record_events = False
@@ -496,8 +497,22 @@ class LSym:
             et = vec_type(fty)[1]; tt = vec_type(tty)[1]
             return [self.cast(kind, et, x, tt) for x in v]
         if kind == "freeze": return v
-        if kind in ("ptrtoint", "inttoptr"):
+        if kind == "ptrtoint":
+            if isinstance(v, Ptr):
+                # only alignment / null tests consume pointer integers in the code under analysis: every object
+                # gets a distinct, 4096-aligned fake base address
+                if v.r == "null": return Poly.const(v.o)
+                base = self.fake_bases.setdefault(v.r, (len(self.fake_bases) + 1) << 24)
+                return Poly.const(base + v.o)
             return v
+        if kind == "inttoptr":
+            if isinstance(v, (Ptr, FnPtr)): return v
+            pv = self.P(v)
+            if pv.is_const():
+                for r, b in self.fake_bases.items():
+                    if b <= pv.cval() < b + (1 << 24): return Ptr(r, pv.cval() - b)
+                return Ptr("null", pv.cval())
+            raise Unsupported("inttoptr of symbolic integer")
         if kind == "bitcast":
             fv, tv = vec_type(fty), vec_type(tty)
             if fty == tty or (not fv and not tv): return v
@@ -671,6 +686,14 @@ class LSym:
             w = int(m.group(2))
             c = Cond("cmp", "lt", self.signed(self.P(a[0]), w), self.signed(self.P(a[1]), w))
             return self.select(c, a[0], a[1]) if m.group(1) == "smin" else self.select(c, a[1], a[0])
+        m = re.match(r'llvm\.(ctpop|cttz|ctlz)\.i(\d+)', name)
+        if m:
+            pa = self.P(a[0]); w = int(m.group(2))
+            if not pa.is_const(): raise Unsupported("bit counting of symbolic value")
+            v = pa.cval()
+            if m.group(1) == "ctpop": return Poly.const(bin(v).count("1"))
+            if m.group(1) == "cttz": return Poly.const(w if v == 0 else (v & -v).bit_length() - 1)
+            return Poly.const(w - v.bit_length())
         m = re.match(r'llvm\.bswap\.i(\d+)', name)
         if m:
             w = int(m.group(1)); n = w // 8; p = self.P(a[0]); tot = ZERO
